@@ -17,7 +17,8 @@ def _query_text(ob):
 
 
 def obligation_hash(ob):
-    return hashlib.sha256(_query_text(ob).encode("utf-8")).hexdigest()
+    """structural key of the query: z3 hash-conses terms, so equal formulas have equal ids"""
+    return (tuple(sorted(set(h.get_id() for h in ob.hyps))), ob.goal.get_id())
 
 
 def _extra(ob):
